@@ -158,10 +158,10 @@ fn gen_elem(p: &mut Prng, cfg: GenCfg, used: &mut BTreeSet<String>, universe: us
 fn gen_flat_value(p: &mut Prng, cfg: GenCfg, used: &mut BTreeSet<String>, universe: usize, depth: usize) -> Value {
     match p.below(10) {
         0 => gen_scalar(p, cfg),
-        1 => {
+        1 | 2 => {
             // tracked object directly under a flattened key (identifier derived from the path, or explicit)
             let mut m = Map::new();
-            if p.chance(1, 2) {
+            if p.chance(1, 3) {
                 if let Some(id) = fresh_id(p, used, universe) {
                     m.insert("_id".into(), Value::from(id));
                 }
